@@ -117,6 +117,11 @@ func (a *AST) computeFollows(n Node) {
 		for i := 0; i < len(v.Exprs)-1; i++ {
 			for _, p := range v.Exprs[i].lastPos() {
 				a.follows[p] = append(a.follows[p], v.Exprs[i+1].firstPos()...)
+
+				// The operands after a nullable operand can follow as well.
+				for j := i + 1; j < len(v.Exprs)-1 && v.Exprs[j].nullable(); j++ {
+					a.follows[p] = append(a.follows[p], v.Exprs[j+1].firstPos()...)
+				}
 			}
 		}
 
@@ -230,7 +235,7 @@ func (n *Concat) compute() {
 	}
 
 	n.comp = &computed{
-		nullable: false,
+		nullable: true,
 		firstPos: Poses{},
 		lastPos:  Poses{},
 	}
